@@ -114,6 +114,32 @@ fn verify_all<V: VirtualFileSystem>(v: &V, backend: &str, files: &[String], mode
                 (Err(_), Res::Err(_)) => {},
                 _ => rep.violation(&format!("bytes:read_all({}):utf8-of-model→differs", backend), wit("read_all", ra.short())),
             }
+            // read() hands out a handle: the same bytes have to come back through a handle that has already been
+            // used (a read, then a seek from the end / from the start), not only through one pass from position 0
+            if rep.evals % 4 == 0 && !w.is_empty() {
+                use std::io::{Read, Seek, SeekFrom};
+                if let Ok(mut h) = v.read(f) {
+                    let k = w.len().min(3);
+                    let mut one = [0u8; 1];
+                    let mut tail = vec![];
+                    let mut rest = vec![];
+                    let r = (|| -> std::io::Result<()> {
+                        h.read_exact(&mut one)?;
+                        h.seek(SeekFrom::End(-(k as i64)))?;
+                        h.read_to_end(&mut tail)?;
+                        h.seek(SeekFrom::Start(1))?;
+                        h.read_to_end(&mut rest)?;
+                        Ok(())
+                    })();
+                    rep.count("used_handle_reads", 1);
+                    if r.is_err() || one[0] != w[0] || tail != w[w.len() - k..] || rest != w[1..] {
+                        rep.violation(
+                            &format!("bytes:read-handle({}):bytes-through-a-used-handle→differs", backend),
+                            wit("read 1, seek(End(-k)), read_to_end, seek(Start(1)), read_to_end", format!("{:?} first={:?} tail={:?} rest={} bytes", r.map_err(|e| e.to_string()), one, String::from_utf8_lossy(&tail), rest.len())),
+                        );
+                    }
+                }
+            }
             use std::io::BufRead;
             let exp: Result<Vec<String>, _> = std::io::BufReader::new(&w[..]).lines().collect();
             let rl = exec(v, &Op::ReadLines(f.clone()));
